@@ -34,7 +34,7 @@ def gen_inputs(ctx):
     if ctx.quick:
         der = L.derived_workspaces(g, ctx.rng, 300, 5, 5, 1)
     else:
-        der = L.derived_workspaces(g, ctx.rng, 900, 8, 8, 2)
+        der = L.derived_workspaces(g, ctx.rng, 2400, 8, 8, 2)
     wss = []
     kinds = []
     for kind, files, root in der:
@@ -48,7 +48,7 @@ def corpus_inputs(ctx):
         return []
     os.environ["INCLUDE_DIR"] = "/c"
     out = []
-    for files, root in L.corpus_workspaces(ctx.rng, 8, 30000):
+    for files, root in L.corpus_workspaces(ctx.rng, 20, 21000):
         w = L.mk_ws(files, root, None, hover=False, completion=False, hints="none")
         out.append(w)
     return out
